@@ -239,6 +239,10 @@ def main(argv=None) -> int:
         )
         os.makedirs(os.path.join(vfw.VERIF_DIR, 'evidence'), exist_ok=True)
         json.dump(ev, open(os.path.join(vfw.VERIF_DIR, 'evidence', f'{prop}.json'), 'w'), indent=1, default=str)
+        if a.tier == 'thorough':
+            # keep the record of the deepest run next to the per-run evidence file (which the next quick run overwrites)
+            os.makedirs(os.path.join(vfw.VERIF_DIR, 'evidence', 'thorough'), exist_ok=True)
+            json.dump(ev, open(os.path.join(vfw.VERIF_DIR, 'evidence', 'thorough', f'{prop}.json'), 'w'), indent=1, default=str)
     return rc
 
 
